@@ -1083,6 +1083,133 @@ theorem C07_joint_late_notification_reset (s : MsgLayer.State) (r : Nat) (o : Ou
     intro h; rw [h] at hresp; simp [isResponse] at hresp
   simp [expectedReply, hc0, hresp, hcon, dropOutgoing]
 
+-- C07 clause "with a network error on transport failure", whatever else is outstanding ----------------
+
+open Aiocoap.MsgLayer in
+/-- the pipe events of request `r` among the failures `TokenManager.dispatch_error` hands out for a
+list of table entries: if `r` has an entry among them, its runner — observing — is told exactly that
+error, once, and has returned; entries of other requests before or after it change nothing -/
+theorem feed_fails_observing (cfg : Cfg) (r t v1 t1 : Nat) (k : MsgLayer.ErrKind) (l : List OutReq)
+    (rest : List MsgLayer.Out) (h : ∃ o ∈ l, o.req = r) :
+    feed cfg r t (.observing v1 t1) (l.map (fun o => Out.fail o.req k) ++ rest) =
+      (.ended, [Delivery.errback (ErrKind.transport (excCode k))]) := by
+  induction l with
+  | nil => obtain ⟨o, ho, _⟩ := h; cases ho
+  | cons o l ih =>
+    simp only [List.map_cons, List.cons_append, feed]
+    by_cases hr : o.req = r
+    · simp only [pipeEventOf, hr, ↓reduceIte]
+      simp [step, stepObserving, feed_ended]
+    · simp only [pipeEventOf, hr, ↓reduceIte]
+      apply ih
+      obtain ⟨o', ho', hr'⟩ := h
+      rcases List.mem_cons.mp ho' with rfl | hm
+      · exact absurd hr' hr
+      · exact ⟨o', hm, hr'⟩
+
+open Aiocoap.MsgLayer in
+/-- **C07 (a transport failure ends the observation, whatever other requests are outstanding).**
+`TokenManager.dispatch_error` for peer `rem` with error `k` (a network error reported by the
+transport, or `ConRetransmitsExceeded` when any confirmable message to that peer ran out of
+retransmissions), in any state of the tables — any number of other requests outstanding, to the same
+peer or to others, registered before or after the observing request `r`:
+
+* if `r` is outstanding to `rem`, its runner, observing, is told exactly that error, once
+  ("ends … with a network error on transport failure"), has returned, and `r` has no table entry
+  left (its token is retired: `C07_joint_after_end_unmatched`, `C07_joint_late_notification_reset`);
+* every request with an entry for `rem` is failed with `k`; a request none of whose entries is for
+  `rem` is not failed and keeps its entries;
+* if none of `r`'s entries is for `rem` (the failure is some other peer's), the runner of `r` sees
+  nothing at all — in whatever state it is — and its entries stay. -/
+theorem C07_joint_transport_failure (cfg : Cfg) (r t v1 t1 : Nat) (s : MsgLayer.State) (rem : Remote)
+    (k : MsgLayer.ErrKind) (hs : s.shutTok = false) :
+    ((∃ o ∈ s.outgoing, o.req = r ∧ o.remote = some rem) →
+      feed cfg r t (.observing v1 t1) (tokenDispatchError s rem k).2 =
+        (.ended, [Delivery.errback (ErrKind.transport (excCode k))]) ∧
+      ((∀ o ∈ s.outgoing, o.req = r → o.remote = some rem) →
+        ∀ o ∈ (tokenDispatchError s rem k).1.outgoing, o.req ≠ r)) ∧
+    (∀ o ∈ s.outgoing, o.remote = some rem → Out.fail o.req k ∈ (tokenDispatchError s rem k).2) ∧
+    (∀ r', (∀ o ∈ s.outgoing, o.req = r' → o.remote ≠ some rem) →
+      (∀ k' : MsgLayer.ErrKind, Out.fail r' k' ∉ (tokenDispatchError s rem k).2) ∧
+      (∀ o ∈ s.outgoing, o.req = r' → o ∈ (tokenDispatchError s rem k).1.outgoing) ∧
+      ∀ st, feed cfg r' t st (tokenDispatchError s rem k).2 = (st, [])) := by
+  have hout : (tokenDispatchError s rem k).2 =
+      (s.outgoing.filter (fun o => o.remote == some rem)).map (fun o => Out.fail o.req k) ++
+      (s.incoming.filter (fun i => i.remote == rem)).map (fun i => Out.stop i.srv) := by
+    simp [tokenDispatchError, hs]
+  have hst : (tokenDispatchError s rem k).1.outgoing =
+      s.outgoing.filter (fun o => !(o.remote == some rem)) := by
+    simp [tokenDispatchError, hs]
+  refine ⟨?_, ?_, ?_⟩
+  · intro ⟨o, ho, hr, hrem⟩
+    refine ⟨?_, ?_⟩
+    · rw [hout]
+      apply feed_fails_observing
+      exact ⟨o, List.mem_filter.mpr ⟨ho, by simp [hrem]⟩, hr⟩
+    · intro hall o' ho' hr'
+      rw [hst] at ho'
+      obtain ⟨hm, hne⟩ := List.mem_filter.mp ho'
+      have := hall o' hm hr'
+      simp [this] at hne
+  · intro o ho hrem
+    rw [hout]
+    apply List.mem_append_left
+    exact List.mem_map.mpr ⟨o, List.mem_filter.mpr ⟨ho, by simp [hrem]⟩, rfl⟩
+  · intro r' hnone
+    have hnf : ∀ k' : MsgLayer.ErrKind, Out.fail r' k' ∉ (tokenDispatchError s rem k).2 := by
+      intro k' hmem
+      rw [hout] at hmem
+      rcases List.mem_append.mp hmem with hm | hm
+      · obtain ⟨o, ho, heq⟩ := List.mem_map.mp hm
+        obtain ⟨ho1, ho2⟩ := List.mem_filter.mp ho
+        injection heq with h1 _
+        exact hnone o ho1 h1 (by simpa using ho2)
+      · obtain ⟨i, _, heq⟩ := List.mem_map.mp hm
+        cases heq
+    refine ⟨hnf, ?_, ?_⟩
+    · intro o ho hr
+      rw [hst]
+      exact List.mem_filter.mpr ⟨ho, by simpa using hnone o ho hr⟩
+    · intro st
+      apply feed_no_events
+      intro o ho
+      cases o with
+      | fail r'' k'' =>
+        by_cases h : r'' = r'
+        · subst h
+          rw [hout] at ho
+          rcases List.mem_append.mp ho with hm | hm
+          · obtain ⟨o, ho', heq⟩ := List.mem_map.mp hm
+            obtain ⟨ho1, ho2⟩ := List.mem_filter.mp ho'
+            injection heq with h1 _
+            exact absurd (by simpa using ho2) (hnone o ho1 h1)
+          · obtain ⟨i, _, heq⟩ := List.mem_map.mp hm
+            cases heq
+        · simp [pipeEventOf, h]
+      | response r'' w f =>
+        rw [hout] at ho
+        rcases List.mem_append.mp ho with hm | hm
+        · obtain ⟨_, _, heq⟩ := List.mem_map.mp hm; cases heq
+        · obtain ⟨_, _, heq⟩ := List.mem_map.mp hm; cases heq
+      | send _ _ _ => rfl
+      | deliver _ _ _ => rfl
+      | stop _ => rfl
+
+open Aiocoap.MsgLayer in
+/-- an observation to peer 0 established, then two more requests registered (to peer 0 and to peer 1),
+then the transport reports an error for peer 0: the observation (the OLDEST entry) is told the network
+error, the other request to peer 0 fails too, the one to peer 1 is left alone -/
+example :
+    let s : MsgLayer.State := { MsgLayer.init ⟨1, 1⟩ 0 32 (fun _ => 0) with outgoing :=
+      [{ token := [33], remote := some 0, req := 0, observing := true, idx := 0 },
+       { token := [34], remote := some 0, req := 1, observing := false, idx := 1 },
+       { token := [35], remote := some 1, req := 2, observing := false, idx := 2 }] }
+    feed ⟨128, true⟩ 0 9 (.observing 5 1) (tokenDispatchError s 0 .networkError).2 =
+        (.ended, [Delivery.errback (ErrKind.transport 2)]) ∧
+    (tokenDispatchError s 0 .networkError).2 = [.fail 0 .networkError, .fail 1 .networkError] ∧
+    (tokenDispatchError s 0 .networkError).1.outgoing.map (·.req) = [2] := by
+  decide
+
 -- C07 clause 0: the comparison itself -------------------------------------------------------------
 
 /-- **C07 (the coded comparison is RFC 7641 §3.4).** `is_recent` as coded holds exactly when
